@@ -15,7 +15,7 @@ cd $VERIF/sim || exit 2
 if [ ! -x $VERIF/bin/simrewrite ] || [ cmd/simrewrite/main.go -nt $VERIF/bin/simrewrite ]; then
   go build -o $VERIF/bin/simrewrite ./cmd/simrewrite || { echo "build: simrewrite failed" >&2; exit 2; }
 fi
-$VERIF/bin/simrewrite /repo "$SCRATCH/nutsdb" >/dev/null || { echo "build: rewrite failed" >&2; exit 2; }
+$VERIF/bin/simrewrite "${VERIF_REPO:-/repo}" "$SCRATCH/nutsdb" >/dev/null || { echo "build: rewrite failed" >&2; exit 2; }
 sed "s#=> /repo#=> $SCRATCH/nutsdb#" go.mod > "$SCRATCH/go.mod"
 cp go.sum "$SCRATCH/go.sum"
 RACE=""
